@@ -62,3 +62,16 @@ Proof.
       rewrite forallb_forall in Hall.
       apply eqb_prop. apply Hall. apply zrange_in. lia.
 Qed.
+
+(* Round 6: the shared line cache object has exactly the two fields of the cache
+   model (Model/C02_Cache.v: ce_lines, ce_indexes) and Document keeps its state
+   in the four slots the model knows: a new cached field changes these
+   regenerated lists and stops the proof build. *)
+Lemma C02_cache_fields_as_modelled :
+  document_cache_fields = [ [108; 105; 110; 101; 115];                                      (* "lines" *)
+                            [108; 105; 110; 101; 95; 105; 110; 100; 101; 120; 101; 115] ]   (* "line_indexes" *)
+  /\ document_slots = [ [95; 116; 101; 120; 116];                                           (* "_text" *)
+                        [95; 99; 117; 114; 115; 111; 114; 95; 112; 111; 115; 105; 116; 105; 111; 110]; (* "_cursor_position" *)
+                        [95; 115; 101; 108; 101; 99; 116; 105; 111; 110];                   (* "_selection" *)
+                        [95; 99; 97; 99; 104; 101] ].                                       (* "_cache" *)
+Proof. split; reflexivity. Qed.
